@@ -87,9 +87,6 @@ func init() {
 						if on == "event" {
 							cnt = pr.EvPass[proc+" "+key]
 						}
-						if strings.HasPrefix(key, "harness:") {
-							continue
-						}
 						for occ := 1; occ <= maxOcc && occ <= cnt; occ++ {
 							for _, act := range acts {
 								if act == "panic" && on == "event" {
